@@ -75,6 +75,9 @@ fn body(file_level_using: bool) -> (String, Vec<i32>, Vec<i32>, Vec<i32>) {
         ("        while (total > a.div(2)) { total = total.sub(1); }".into(), "S"),
         ("        { uint256 inner = a.add(b); require(inner > 0, \"in block\"); }".into(), "SR"),
         ("        emit Done(a.mul(b)); return;".into(), "S"),
+        ("        require(a > b, \"\");".into(), "R"),
+        ("        require(a > b, '');".into(), "R"),
+        ("        require(a > b, \" \");".into(), "R"),
         ("        assert(a > b);".into(), ""),
         ("        revert(\"plain revert with a string that is quite long indeed\");".into(), ""),
         ("    }".into(), ""),
